@@ -112,7 +112,7 @@ fn measure_bits(kind: BitsKind, path: u8, bits: &[bool], extra_capacity: usize) 
             4 => (BvHow::BoolsLoose(path / 8), WrapHow::New),
             5 => (BvHow::BoolsLoose(64 + path / 8), WrapHow::Collect),
             6 => (BvHow::ExtendPieces(path / 8), WrapHow::From),
-            _ => (BvHow::PosLoose(path / 8 * 9), WrapHow::New),
+            _ => (BvHow::BoolsLoose(128 + path / 8), WrapHow::From),
         };
         BitsVal::build(kind, bh, wh, bits)
     };
@@ -528,6 +528,48 @@ impl Prop for C16 {
                     let (v0, h0) = measure_bits(bk, c.path, &b, 0);
                     diff_close(r as i64 - v0.space_usage_byte() as i64, a as i64 - (h0 + v0.size_of_val()) as i64, &format!("{who} minus {}", bk.name()))?;
                     ctx.label("diff-bits");
+                }
+                // containers: the blanket impls for Box<[T]> and Vec<T> over values of unequal size
+                if c.path % 4 == 1 && c.extra_capacity == 0 {
+                    use qwt::SpaceUsage;
+                    let mut cuts: Vec<usize> = vec![0, b.len().min(70), b.len() / 3, b.len()];
+                    cuts.sort_unstable();
+                    macro_rules! boxed {
+                        ($mk:expr) => {{
+                            let before = live();
+                            let bx = cuts.windows(2).map(|w| $mk(&b[w[0]..w[1]])).collect::<Vec<_>>().into_boxed_slice();
+                            let heap = live().saturating_sub(before);
+                            (bx.space_usage_byte(), heap + std::mem::size_of_val(&bx))
+                        }};
+                    }
+                    let (rb, ab) = match kind {
+                        BitsKind::Bv => boxed!(|p: &[bool]| p.iter().copied().collect::<qwt::BitVector>()),
+                        BitsKind::Bvm => boxed!(|p: &[bool]| p.iter().copied().collect::<qwt::BitVectorMut>()),
+                        BitsKind::Narrow => boxed!(|p: &[bool]| qwt::RSNarrow::new(p.iter().copied().collect())),
+                        BitsKind::Wide => boxed!(|p: &[bool]| qwt::RSWide::new(p.iter().copied().collect())),
+                        BitsKind::Da0 => boxed!(|p: &[bool]| qwt::DArray::<false>::new(p.iter().copied().collect())),
+                        BitsKind::Da1 => boxed!(|p: &[bool]| qwt::DArray::<true>::new(p.iter().copied().collect())),
+                    };
+                    within(rb, ab, 3 * if matches!(kind, BitsKind::Da0 | BitsKind::Da1) { 6 } else { 2 }, 0.0, &format!("Box<[{who}]> of 3 values of unequal size"))?;
+                    let before = live();
+                    let mut words: Vec<u64> = Vec::with_capacity(b.len() / 64 + 1 + (c.path as usize) * 8);
+                    words.extend((0..b.len() / 64).map(|i| i as u64));
+                    let heap = live().saturating_sub(before);
+                    within(words.space_usage_byte(), heap + std::mem::size_of_val(&words), 1, 0.0, "Vec<u64> with spare capacity")?;
+                    ctx.label("containers");
+                }
+                // DArray<true> written with serde and read back as DArray<false> (the const
+                // parameter is not part of the format): the zero inventories stay alive
+                if kind == BitsKind::Da0 && c.path % 4 == 2 {
+                    use qwt::SpaceUsage;
+                    let full = qwt::DArray::<true>::new(b.iter().copied().collect());
+                    let bytes = bincode::serialize(&full).map_err(|e| Failure::new(format!("DArray<true>: serialize failed: {e}")))?;
+                    drop(full);
+                    let before = live();
+                    let back: qwt::DArray<false> = bincode::deserialize(&bytes).map_err(|e| Failure::new(format!("DArray<false> from the bytes of DArray<true>: deserialize failed: {e}")))?;
+                    let heap = live().saturating_sub(before);
+                    within(back.space_usage_byte(), heap + std::mem::size_of_val(&back), 6, 0.0, "DArray<false> deserialized from the bytes of a DArray<true>")?;
+                    ctx.label("da-cross-deserialize");
                 }
             }
         }
